@@ -47,7 +47,7 @@ def main():
     names = [n for n in sorted(os.listdir(base))
              if os.path.exists(os.path.join(base, n, 'patch.diff'))
              and (not pre or any(p in n for p in pre))]
-    with multiprocessing.Pool(min(16, max(1, len(names)))) as pool:
+    with multiprocessing.Pool(min(16, max(1, len(names))), maxtasksperchild=4) as pool:
         res = pool.map(work, [(repo, n, os.path.join(base, n, 'patch.diff')) for n in names])
     missed = own_missed = 0
     for name, out in res:
